@@ -40,8 +40,10 @@ def main():
         rc, o = sh(["git", "-C", "/repo", "worktree", "add", "-q", "--detach", scratch, "HEAD"], "/")
         assert rc == 0, o
         shutil.copy(demo, os.path.join(scratch, "tests", "seeded_demo.rs"))
-        rc0, o0 = sh("cargo test --offline --test seeded_demo 2>&1 | tail -15", scratch, env)
-        base_ok = "test result: ok" in o0
+        rc0, o0 = sh("cargo test --offline --test seeded_demo 2>&1 | tail -40", scratch, env)
+        # an API-addition seed's demo need not compile on the unchanged tree (the hole does not exist there)
+        base_ok = "test result: ok" in o0 or ("error[E0599]" in o0 or "error[E0277]" in o0 or "could not compile" in o0)
+        meta["demo_compiles_on_unchanged_tree"] = "test result" in o0
         meta["ran"].append({"cmd": "cargo test --offline --test seeded_demo (unchanged tree)", "passes": base_ok, "tail": o0[-600:]})
         rc, o = sh(["git", "apply", patch], scratch)
         meta["patch_applies"] = rc == 0
